@@ -32,8 +32,11 @@ import types  # noqa: E402
 backoff._sync.time = types.SimpleNamespace(sleep=lambda s: None)
 
 PID = 'C13'
-NAMES = ['data/ab/c-d', 'data/ab/c-e', 'data/q', 'snapshots/x', 'we ird/ü', 'p%41/q?r#s', 'x.tmp']
-PREFIXES = ['', 'data/', 'data/ab/c', 'da', 'we i', 'nomatch', 'p%', 'x.', 'snapshots/x', 'data/ab/c-d']
+NAMES = ['data/ab/c-d', 'data/ab/c-e', 'data/q', 'snapshots/x', 'we ird/ü', 'p%41/q?r#s', 'x.tmp', 'data/abc/f']
+# incl. prefixes that are exactly the name of a directory-like component with a sibling that continues the string
+# ('data/ab' vs 'data/abc/f', 'data' vs nothing, 'we ird')
+PREFIXES = ['', 'data/', 'data/ab/c', 'da', 'we i', 'nomatch', 'p%', 'x.', 'snapshots/x', 'data/ab/c-d', 'data/ab', 'data', 'we ird',
+            'data/abc']
 CHUNK = 8
 SPELLINGS = ['absolute', 'relative', 'dot-slash', 'trailing-slash', 'dotdot', 'dot']
 
@@ -207,10 +210,13 @@ def subset_case(args):
             await observers(ctx, model, sig0, detail0, vs)
             n_ops[0] += len(NAMES) * 3 + len(PREFIXES)
             state0 = dict(model)
-            for nme in NAMES:
-                for op, variant in MUTATIONS:
-                    if not ctx.inject(state0):
-                        # local: rebuild by undoing the previous mutation through the adapter
+            for ni, nme in enumerate(NAMES):
+                # the order of the mutations rotates with the name: a streamed upload is the first thing that happens to
+                # some names, a plain upload or a deletion to others
+                for op, variant in MUTATIONS[ni % len(MUTATIONS):] + MUTATIONS[:ni % len(MUTATIONS)]:
+                    if True:
+                        # rebuild the state by undoing the previous mutation through the adapter itself (the history stays
+                        # a single-client history: nothing changes behind the adapter's back)
                         cur = ctx.truth()
                         for k in set(cur) - set(state0):
                             await call(ctx.be, 'delete', k)
@@ -274,6 +280,10 @@ def sequence_case(args):
                 except Exception as e:
                     vs.append((dict(sig0, what='mutation-raised', op=op, name_class=name_class(nme)), dict(detail0, err=repr(e)[:160])))
                     return
+                # what the adapter says about that name right after each step
+                ex = await call(ctx.be, 'exists', nme)
+                if ex != (nme in model):
+                    vs.append((dict(sig0, what='exists-differs-after-mutation', op=op, name_class=name_class(nme)), detail0))
             if ctx.truth() != model:
                 vs.append((dict(sig0, what='stored-state-differs'), dict(detail0, truth=sorted(ctx.truth()), model=sorted(model))))
             await observers(ctx, model, sig0, detail0, vs)
@@ -343,8 +353,8 @@ def main():
     chk.coverage.update({
         'states': len(cases), 'transitions': nops, 'traces_validated_against_impl': len(cases) + len(scases),
         'evaluations': nops, 'distinct_nontrivial': len(cases) + len(scases),
-        'rule': 'states = all subsets of 7 names per adapter configuration (built through the adapter); in each all observers '
-                'and all 8 mutations x 7 names against the dict model and the raw store; plus all sequences of <=3/4 mutations over '
+        'rule': 'states = all subsets of 8 names per adapter configuration (built through the adapter); in each all observers '
+                'and all 8 mutations x 8 names (order rotating with the name, state restored through the adapter) against the dict model and the raw store; plus all sequences of <=3/4 mutations over '
                 '3 names with all observers at the end',
         'adapter_configurations': [f'{k}:{s}' for k, s in adapters], 'names': NAMES, 'prefixes': PREFIXES,
         'subset_cases': len(cases), 'sequence_cases': len(scases),
